@@ -40,10 +40,10 @@ func init() {
 		Race:       true,
 		RealRand:   true,
 		MaxWorkers: 8,
-		Rule: "case = one concurrent round: (a) one mobile.Reader shared by several goroutines mixing ReadDocument with SetApduMaxLe / SkipImages / WithAAChallenge against one simulated chip; (b) one reader.Reader: a ReadDocument with concurrent setters; (c) one verifier.Verifier / mobile.Verifier: Verify with concurrent WithAAChallenge; (d) independent readers and verifiers sharing one GenericCertPool / CombinedCertPool; (e) cold start in a fresh process: 32 goroutines calling PreloadCscaCertPool / NewSampleDocument / Verifier.Verify; (f) client kind lister: readers, verifiers and listers sharing a caller-built GenericCertPool / master-list SignedDataCertPool / CombinedCertPool (and its inner stores) / AddCerts-filled store - a lister calls All / BySKI / ByIssuerCountry / ByIssuerAndSerial and sorts, reverses, shuffles, rotates, overwrites, truncates+appends to the slice it received; buffers passed in (AA challenge, Verify blob, AddCerts slice, transceiver response) are overwritten once the call has returned, certificate chains in results are overwritten; then a lone lister wipes every accessor's result on an unshared twin; (g) the same listers on the built-in store beside one shared mobile.Verifier, bytes returned by mobile.Document accessors overwritten; GOMAXPROCS varied over {2,4,16}, chip responses delayed by PRNG yields; " +
-			"oracles: no DATA RACE report with a gmrtd frame; every recorded history (call/return stamps from one atomic counter at the client boundary) linearizable against the sequential model of the configuration; independent instances return the lone-call result; master-list loaders each invoked once and every caller sees the same pool; accesses to caller-owned memory are made in verifCallerOwned* functions so that a race on it is attributed to the accessor that handed out (or the call that kept) the alias; at quiescent points a shared store lists exactly the added certificates and answers every lookup as the lone call did before sharing, every concurrent lookup equals the lone call; non-trivial = a round with at least two overlapping calls; distinct = (workload, observed completion order)",
+		Rule: "case = one concurrent round: (a) one mobile.Reader shared by several goroutines mixing ReadDocument with SetApduMaxLe / SkipImages / WithAAChallenge against one simulated chip; (b) one reader.Reader: a ReadDocument with concurrent setters; (c) one verifier.Verifier / mobile.Verifier: Verify with concurrent WithAAChallenge; (d) independent readers and verifiers sharing one GenericCertPool / CombinedCertPool; (e) cold start in a fresh process: 32 goroutines calling PreloadCscaCertPool / NewSampleDocument / Verifier.Verify; (f) client kind lister: readers, verifiers and listers sharing a caller-built GenericCertPool / master-list SignedDataCertPool / CombinedCertPool (and its inner stores) / AddCerts-filled store - a lister calls All / BySKI / ByIssuerCountry / ByIssuerAndSerial and sorts, reverses, shuffles, rotates, overwrites, truncates+appends to the slice it received; buffers passed in (AA challenge, Verify blob, AddCerts slice, transceiver response) are overwritten once the call has returned, certificate chains in results are overwritten; then a lone lister wipes every accessor's result on an unshared twin; (g) the same listers on the built-in store beside one shared mobile.Verifier, bytes returned by mobile.Document accessors overwritten; (h) timed setters: one ReadDocument of a reader.Reader / mobile.Reader on chips that store and list DG2 and DG7, with SkipImages / SkipPace / WithAAChallenge / SetApduMaxLe called by another thread when the read reaches its k-th transceiver or status callback, k enumerated over the whole read (the read goes on once the setter's thread has returned or is parked), alone, after other setter calls, two or three a few points apart, mobile: followed by a second read; GOMAXPROCS varied over {2,4,16}, chip responses delayed by PRNG yields; " +
+			"oracles: no DATA RACE report with a gmrtd frame; every recorded history (call/return stamps from one atomic counter at the client boundary) linearizable against the sequential model of the configuration; independent instances return the lone-call result; master-list loaders each invoked once and every caller sees the same pool; accesses to caller-owned memory are made in verifCallerOwned* functions so that a race on it is attributed to the accessor that handed out (or the call that kept) the alias; at quiescent points a shared store lists exactly the added certificates and answers every lookup as the lone call did before sharing, every concurrent lookup equals the lone call; timed setters: the abstract result of the read (files obtained with contents, files selected on the chip, steps, phases reported, challenge on the wire, largest Le, verdicts) equals the measured result of a lone ReadDocument under a configuration that a sequential order of the calls produces, the order respecting calls that did not overlap; non-trivial = a round with at least two overlapping calls; distinct = (workload, observed completion order)",
 		MinEvaluations: 20,
-		HangSeconds:    600,
+		HangSeconds:    3600, // broken-harness guard only; a timed-setter case is 50-100 reads, the first mobile case loads the built-in store under -race
 		Assumptions: []string{
 			"the race detector only sees the interleavings that occurred; rounds are repeated with yields at the transceiver (the natural suspension point inside a read) and different GOMAXPROCS",
 			"the simulated chip is guarded by the harness's own lock and starts a new session whenever an unprotected SELECT arrives, so serialised reads are clean sessions",
@@ -738,6 +738,14 @@ func runC20(c *fw.Ctx) {
 			w.f(k, i)
 		})
 	}
+	// setters called from another thread at every point of one read (checks/c20_timed.go)
+	plans := c20tPlans(c)
+	c.Cases(len(plans), func(i int) string { return fmt.Sprintf("timed-setters|plan=%d %s", i, plans[i]) }, func(i int, k *fw.K) {
+		prev := runtime.GOMAXPROCS([]int{4, 16, 2}[i%3])
+		defer runtime.GOMAXPROCS(prev)
+		k.Nontrivial("")
+		c20TimedSetters(k, i, plans[i])
+	})
 	cold := c.Pick(3, 60)
 	c.Cases(cold, func(i int) string { return fmt.Sprintf("cold-start|round=%d", i) }, func(i int, k *fw.K) {
 		k.Nontrivial("")
